@@ -62,6 +62,7 @@ func main() {
 		runs = []run{
 			{hist.EnvFam{Cfg: "both", Vals: []string{"2", "-", "e"}, WithNoop: true, Sandbox: true}, 2},
 			{hist.EnvFam{Cfg: "none", Vals: []string{"2"}, WithRm: true, Sandbox: true}, 2},
+			{hist.EnvFam{Cfg: "path", Vals: []string{"2"}, WithPath: true}, 2},
 		}
 	} else {
 		runs = []run{
@@ -69,6 +70,7 @@ func main() {
 			{hist.EnvFam{Cfg: "unsafe", Vals: []string{"2", "-", "e"}, WithPath: true, WithNoop: true, Sandbox: true}, 2},
 			{hist.EnvFam{Cfg: "none", Vals: []string{"2", "-", "e"}, WithPath: true, WithRm: true, Sandbox: true}, 2},
 			{hist.EnvFam{Cfg: "none", Boundary: true, WithNoop: true}, 2},
+			{hist.EnvFam{Cfg: "path", Vals: []string{"2", "-"}, WithPath: true, WithNoop: true, Sandbox: true}, 2},
 		}
 	}
 	if r.Replay != "" {
